@@ -25,14 +25,18 @@ EXPLANATION = ("Theorems over all masks/trees, about the driver's own definition
                "of `encode` <-> Iso of the canonical re-seedings `canonU` at the lowest leaf, >= 3 taxa; canonU is executable, printed by the driver "
                "and compared with the oracle's graph canonical form), backed by Bridge.canonU_spec (every well-formed tree reaches the canonical "
                "seed position by edge inversions + suppression, each keeping the normalised split set), encode_unrooted_invariant_under_inversion, "
-               "encode_unrooted_invariant / _flags_invariant, encode_unrooted_eq_usplits, encode_none_eq_unrooted. (d) rebuild_rooted_topology and "
+               "encode_unrooted_invariant / _flags_invariant, encode_unrooted_eq_usplits, encode_none_eq_unrooted; ucanon_uses_lowest_taxon ties the "
+               "driver's lowIdx to that k (that equal renderSorted strings mean Iso is compared, not proved). (d) rebuild_rooted_topology and "
                "rebuild_unrooted_topology (the tree `build` makes of `encode`'s split masks in any order/multiplicity is the encoded topology, has "
-               "no unifurcation; members = the tree's taxa, all-bits mask may be larger; the unrooted head filter's complement-on-bit-0 path "
-               "provably never fires on an encoding), build_rooted_clades for namespaces with extra members. (e) is_trivial_sets, "
-               "is_compatible_sets, is_compatible_four_quadrants, is_nested_sets, tree_compatible_rooted_sets / _unrooted_sets "
-               "(Tree.is_compatible_with_bipartition = compatibility with the bipartition of EVERY edge). Underneath: refinement of the generated "
-               "integer functions, mask_spec, split_spec, norm_sets, ins_spec/build_spec. Not proved: unrooted statements for < 3 taxa (one "
-               "topology), unrooted rebuild over namespaces with extra members (correspondence + oracle only).")
+               "no unifurcation; both ASSUME members = the tree's taxa, all-bits mask may be larger; the unrooted head filter's complement-on-bit-0 "
+               "path provably never fires on an encoding), rebuild_rooted_extras (rooted, namespace with extra members: Iso to the encoded tree "
+               "plus the absent members under a new root), build_rooted_clades. (e) is_trivial_sets, is_compatible_sets, "
+               "is_compatible_four_quadrants, is_compatible_unrooted_raw (two raw unrooted leafsets, normalised then tested <-> four-quadrant), "
+               "is_nested_sets, tree_compatible_rooted_sets / _unrooted_sets (Tree.is_compatible_with_bipartition with default flags = "
+               "compatibility with the bipartition of EVERY edge). Underneath: refinement of the generated integer functions, mask_spec, "
+               "split_spec, norm_sets, ins_spec/build_spec. Not proved: unrooted statements for < 3 taxa (one topology), unrooted rebuild over "
+               "namespaces with extra members, trees with taxon-less leaves (not Good), multiplicity of the encoding list - correspondence + "
+               "oracle only.")
 
 
 # ------------------------------------------------------------------ independent oracles
@@ -70,10 +74,13 @@ def canon_from(adj, bit, v, parent, extra_at=None, extras=()):
     return "(" + ",".join(sorted(forms)) + ")"
 
 
-def with_extras(tree, extras, unrooted):
+def with_extras(tree, extras, unrooted, at_node=False):
     """graph of the tree the rebuild is expected to produce: absent namespace members hang from a new root vertex;
     rooted: together with the old seed; unrooted: together with the lowest leaf and the rest of the tree (the lowest
-    leaf's own split, normalised, is the clade 'everything else on the tree', so the rest stays together)"""
+    leaf's own split, normalised, is the clade 'everything else on the tree', so the rest stays together).
+    The statement does not dictate where absent members go on an unrooted tree beyond "no split that the encoding does
+    not induce": `at_node=True` is the other placement with that property - directly at the node the lowest leaf hangs
+    from (what a rebuild that does not insert the lowest leaf's own split would give); the judge accepts either."""
     adj, bit = graph(tree)
     adj = {v: list(ws) for v, ws in adj.items()}
     root = id(tree.seed_node)
@@ -86,7 +93,19 @@ def with_extras(tree, extras, unrooted):
         adj[v] = [R]
         adj[R].append(v)
         bit[v] = e
-    if unrooted and bit:
+    if unrooted and bit and at_node:
+        tree_leaves = [v for v in bit if v >= 0]
+        low = min(tree_leaves, key=lambda v: bit[v])
+        prev, cur = low, (adj[low][0] if adj[low] else low)
+        while cur != low and len(adj[cur]) == 2:      # through unifurcations to the first real node
+            nxt = [w for w in adj[cur] if w != prev][0]
+            prev, cur = cur, nxt
+        for v in list(adj[R]):
+            adj[v] = [cur]
+            adj[cur].append(v)
+        del adj[R]
+        R = cur
+    elif unrooted and bit:
         tree_leaves = [v for v in bit if v >= 0]
         low = min(tree_leaves, key=lambda v: bit[v])
         if adj[low]:
@@ -127,8 +146,8 @@ def canon_rooted(tree, extras=()):
     return canon_rooted_g(adj, bit, root)
 
 
-def canon_unrooted(tree, extras=()):
-    adj, bit, _ = with_extras(tree, extras, True)
+def canon_unrooted(tree, extras=(), at_node=False):
+    adj, bit, _ = with_extras(tree, extras, True, at_node)
     return canon_unrooted_g(adj, bit)
 
 
@@ -576,7 +595,10 @@ def judge_rebuild(ctx, dendropy, case, pending):
     _r.Random(case["perm_seed"]).shuffle(enc)
     extras = sorted(tns.accession_index(t) for t in tns if not (L >> tns.accession_index(t)) & 1)
     canon = canon_rooted if src.is_rooted else canon_unrooted
-    want = canon(src, extras)
+    wants = [canon(src, extras)]
+    if extras and not src.is_rooted:
+        wants.append(canon_unrooted(src, extras, at_node=True))
+    want = wants[0]
     ctx.case(["rebuild", case["tree"], case["rooted"], case["perm_seed"]], nt, sample=case, kind="rebuild")
     splits = [b.split_bitmask for b in enc]
     built = [("from_bipartition_encoding", dendropy.Tree.from_bipartition_encoding(enc, taxon_namespace=tns, is_rooted=src.is_rooted)),
@@ -590,7 +612,7 @@ def judge_rebuild(ctx, dendropy, case, pending):
         if rebuilt.taxon_namespace is not tns:
             ctx.fail("rebuild", "%s: rebuilt tree is not over the namespace it was given" % name, case)
         got = canon(rebuilt)
-        if want != got:
+        if got not in wants:
             ctx.fail("rebuild", "%s: tree rebuilt from its (shuffled) encoding has topology %s, source (+ absent namespace members at the root) is %s" % (name, got, want), case)
         if bool(rebuilt.is_rooted) != bool(src.is_rooted):
             ctx.fail("rebuild", "%s: rebuilt tree has rooting %s, source %s" % (name, rebuilt.is_rooted, src.is_rooted), case)
@@ -638,8 +660,10 @@ def judge_treepreds(ctx, dendropy, case, pending):
             if bool(b1.is_leafset_nested_within(b2)) != (A <= B):
                 ctx.fail("predicate", "is_leafset_nested_within = %s for %s within %s" % (b1.is_leafset_nested_within(b2), sorted(A), sorted(B)), case)
                 return
+    m1 = tu.leafset_masks(t1)      # "EVERY edge": leafsets by a from-scratch walk, not from the library's own encoding
+    sides1 = [bits_of(m1[id(nd)]) for nd in tu.walk(t1.seed_node)]
     for k, b2 in enumerate(e2[:10]):
-        want = all(compatible(side(b1), side(b2)) for b1 in e1)
+        want = all(compatible(A, side(b2)) for A in sides1)
         got = bool(t1.is_compatible_with_bipartition(b2))
         if k % 3 == 0:
             # both values of the flag on a tree whose encoding is current, and on a tree that was never encoded
@@ -926,7 +950,7 @@ OPS = [("pyint", 0.12), ("pred", 0.14), ("encode", 0.26), ("pair", 0.12), ("rebu
 def run(ctx):
     dendropy = __import__("dendropy")
     rng = ctx.rng
-    ctx.set_budget(40, 600)
+    ctx.set_budget(35, 600)
     pending = []
     n = ctx.pick(12000, 200000)
     names = [o[0] for o in OPS]
